@@ -200,12 +200,27 @@ func (c *pureCtx) checkSubset(S []string) {
 			}
 			if ni == 0 {
 				refRank = append(refRank, r)
-			} else if strings.Join(r, "\x00") != strings.Join(refRank[i], "\x00") {
+			} else if i < len(refRank) && strings.Join(r, "\x00") != strings.Join(refRank[i], "\x00") {
 				c.viol("agreement", "rendezvousRanked", fmt.Sprintf("peer set %q: nodes %q and %q rank %q differently: %q vs %q", S, S[0], n, id, refRank[i], r), []string{"set=" + strings.Join(S, ","), "node=" + n, "id=" + id})
 				break
 			}
 		}
 		c.evals.Add(int64(len(ids)))
+	}
+	// (C') a ranking that was handed out stays that subscriber's ranking: it must not change when another subscriber is ranked
+	if k >= 2 {
+		p := mkPool(sorted[0], sorted)
+		for i := 0; i+1 < len(ids); i += 2 {
+			held := p.VerifC17RankedShared(ids[i])
+			was := strings.Join(held, "\x00")
+			p.VerifC17RankedShared(ids[i+1])
+			if now := strings.Join(held, "\x00"); now != was {
+				c.viol("ranking", "rendezvousRanked", fmt.Sprintf("peer set %q: the ranking returned for %q was %q and reads %q after an unrelated lookup of %q", S, ids[i], strings.Split(was, "\x00"), strings.Split(now, "\x00"), ids[i+1]),
+					[]string{"set=" + strings.Join(S, ","), "node=" + sorted[0], "id=" + ids[i], "then=" + ids[i+1]})
+				break
+			}
+		}
+		c.evals.Add(int64(len(ids) / 2))
 	}
 	if k < 2 || k > 5 {
 		return
@@ -342,7 +357,17 @@ func runPure(run *report.Run) {
 		go func() {
 			defer wg.Done()
 			for m := range masks {
-				c.checkSubset(subsetOf(m))
+				func() {
+					// a crash inside the code under test (or of a check tripping over its output) is a finding, never a harness exit
+					defer func() {
+						if r := recover(); r != nil {
+							buf := make([]byte, 2048)
+							buf = buf[:runtime.Stack(buf, false)]
+							c.viol("panic", "pure", fmt.Sprintf("peer set %q: %v\n%s", subsetOf(m), r, buf), []string{"set=" + strings.Join(subsetOf(m), ",")})
+						}
+					}()
+					c.checkSubset(subsetOf(m))
+				}()
 			}
 		}()
 	}
